@@ -495,6 +495,13 @@ impl Env for Inner {
             st.stats.send_errors += 1;
             return Err(io::Error::other("simulated send failure"));
         }
+        // what the OS does with garbage destinations: port 0 is EINVAL, the broadcast address
+        // EACCES on a socket without SO_BROADCAST
+        if to.port() == 0 || to.ip().is_broadcast() {
+            st.stats.send_errors += 1;
+            let kind = if to.port() == 0 { io::ErrorKind::InvalidInput } else { io::ErrorKind::PermissionDenied };
+            return Err(io::Error::new(kind, "simulated: invalid destination"));
+        }
         st.transmit(Some(host), src, to, buf.into(), 0);
         Ok(buf.len())
     }
